@@ -13,14 +13,14 @@ import Props.C01
 namespace PM.C12
 open PM
 
-/-- what the structure flag's guard establishes: from a node boundary, `content_between` answers
-    "no" exactly when every token in the range is an open or close token -/
+/-- what the structure flag's guard establishes: `content_between` answers "no" only when every token
+    in the range is an open or close token (a range starting inside a text node always has content) -/
 theorem contentBetween_structural (doc : Node) (f t : Nat) (hft : f ≤ t) (ht : t ≤ fsize doc.kids)
-    (hb : atBoundary doc f = true) (h : contentBetween doc f t = some false) :
+    (h : contentBetween doc f t = some false) :
     structuralOnly (((ftoks doc.kids).drop f).take (t - f)) = true := by
   -- (`ht` is not needed: past the end of the document `content_between` answers "yes")
   have _ := ht
-  exact contentBetween_structural' doc f t hft hb h
+  exact contentBetween_structural' doc f t hft h
 
 /-- **a structure-only step that applies preserves the text and leaf nodes exactly** (marks and
     attributes included, in order) -/
@@ -31,7 +31,7 @@ theorem structural_keeps_content (S : Schema) (doc doc' : Node) (st : Step)
   cases st with
   | replace f t sl c =>
     simp only [isStructuralAt, isStructural, Bool.and_eq_true, decide_eq_true_eq] at hm
-    obtain ⟨⟨hc, hsl⟩, hft, hb⟩ := hm
+    obtain ⟨⟨hc, hsl⟩, hft⟩ := hm
     subst hc
     obtain ⟨e, _, ht, _⟩ := apply_replace_toks S doc doc' f t sl true h
     have hcb : contentBetween doc f t = some false := by
@@ -41,7 +41,7 @@ theorem structural_keeps_content (S : Schema) (doc doc' : Node) (st : Step)
       · simp at h
       · simp at h
       · assumption
-    have hs := contentBetween_structural doc f t hft ht hb hcb
+    have hs := contentBetween_structural doc f t hft ht hcb
     rw [structuralOnly_iff] at hs hsl
     rw [sliceToks'_eq] at hsl
     have e0 : ftoks doc.kids = (ftoks doc.kids).take f ++ (((ftoks doc.kids).drop f).take (t - f)
@@ -52,7 +52,7 @@ theorem structural_keeps_content (S : Schema) (doc doc' : Node) (st : Step)
     simp only [List.filter_append, hs, hsl, List.append_nil, List.nil_append]
   | replaceAround f t gf gt sl i c =>
     simp only [isStructuralAt, isStructural, Bool.and_eq_true, decide_eq_true_eq] at hm
-    obtain ⟨⟨hc, hsl⟩, ⟨⟨⟨hfg, hgg⟩, hgt⟩, hb1⟩, hb2⟩ := hm
+    obtain ⟨⟨hc, hsl⟩, ⟨hfg, hgg⟩, hgt⟩ := hm
     subst hc
     obtain ⟨w1, w2⟩ := hwf f t gf gt sl i true rfl
     obtain ⟨e, ht, _⟩ := apply_replaceAround_toks S doc doc' f t gf gt sl i true w1 w2 ⟨hfg, hgg, hgt⟩ h
@@ -71,8 +71,8 @@ theorem structural_keeps_content (S : Schema) (doc doc' : Node) (st : Step)
             cases b2 with
             | true => simp [h1, h2] at h
             | false => exact ⟨rfl, rfl⟩
-    have hs1 := contentBetween_structural doc f gf hfg (by omega) hb1 hcb.1
-    have hs2 := contentBetween_structural doc gt t hgt ht hb2 hcb.2
+    have hs1 := contentBetween_structural doc f gf hfg (by omega) hcb.1
+    have hs2 := contentBetween_structural doc gt t hgt ht hcb.2
     rw [structuralOnly_iff] at hs1 hs2 hsl
     rw [sliceToks'_eq] at hsl
     have hsl' := hsl
